@@ -251,16 +251,19 @@ class Simulation(object):
         deadlocked = False
         next_active_node = self.find_next_active_node()
         self.current_time = next_active_node.next_event_date
+        # in exact mode the clock is a float at shift changes and slots: first-visit times are Decimals throughout
+        exact = any(isinstance(date, Decimal) for date in self.times_dictionary.values())
         while not deadlocked:
             next_active_node = self.event_and_return_nextnode(next_active_node)
             current_state = self.statetracker.hash_state()
+            now = Decimal(str(self.current_time)) if exact else self.current_time
             if current_state not in self.times_dictionary:
-                self.times_dictionary[current_state] = self.current_time
+                self.times_dictionary[current_state] = now
             if self.unchecked_blockage:
                 deadlocked = self.deadlock_detector.detect_deadlock()
                 self.unchecked_blockage = False
             if deadlocked:
-                time_of_deadlock = self.current_time
+                time_of_deadlock = now
             self.current_time = next_active_node.next_event_date
 
         self.wrap_up_servers(time_of_deadlock)
